@@ -481,6 +481,118 @@ func (e *Enc) allocInstr(f *frame, st *State, in *ssa.Alloc) {
 	}
 	e.initObject(st, r, el)
 	f.vals[in] = Val{Sh: shapeOf(in.Type()), T: r}
+	if !hasArray(shapeOf(el)) || true {
+		f.locals = append(f.locals, localAlloc{in: in, ref: r, names: leafNames(pathForType(el), shapeOf(el))})
+	}
+}
+
+type localAlloc struct {
+	in    *ssa.Alloc
+	ref   string
+	names []string
+	esc   []ssa.Instruction
+	done  bool
+}
+
+// escapePoints: instructions at which a pointer to the allocation (or into it)
+// becomes visible to other code.
+func escapePoints(a ssa.Value, seen map[ssa.Value]bool) []ssa.Instruction {
+	var out []ssa.Instruction
+	if seen[a] {
+		return nil
+	}
+	seen[a] = true
+	rs := a.Referrers()
+	if rs == nil {
+		return nil
+	}
+	for _, r := range *rs {
+		switch x := r.(type) {
+		case *ssa.DebugRef:
+		case *ssa.UnOp:
+			if x.Op.String() == "*" && x.X == a {
+				continue
+			}
+			out = append(out, r)
+		case *ssa.Store:
+			if x.Addr == a && x.Val != a {
+				continue
+			}
+			out = append(out, r)
+		case *ssa.FieldAddr:
+			out = append(out, escapePoints(x, seen)...)
+		case *ssa.IndexAddr:
+			if x.X == a {
+				out = append(out, escapePoints(x, seen)...)
+			} else {
+				out = append(out, r)
+			}
+		default:
+			out = append(out, r)
+		}
+	}
+	return out
+}
+
+func mayPrecede(x, c ssa.Instruction) bool {
+	xb, cb := x.Block(), c.Block()
+	if xb == cb {
+		for _, ins := range xb.Instrs {
+			if ins == x {
+				return true
+			}
+			if ins == c {
+				break
+			}
+		}
+	}
+	// can cb be reached from xb by at least one edge?
+	seen := map[*ssa.BasicBlock]bool{}
+	stack := append([]*ssa.BasicBlock{}, xb.Succs...)
+	for len(stack) > 0 {
+		b := stack[len(stack)-1]
+		stack = stack[:len(stack)-1]
+		if seen[b] {
+			continue
+		}
+		seen[b] = true
+		if b == cb {
+			return true
+		}
+		stack = append(stack, b.Succs...)
+	}
+	return false
+}
+
+// preserveLocals: objects allocated by this activation whose address has not
+// yet escaped cannot be written by a callee: their cells keep their values
+// across the havoc of a call.
+func (e *Enc) preserveLocals(f *frame, in ssa.Instruction, pre, st *State) {
+	for i := range f.locals {
+		l := &f.locals[i]
+		if !l.done {
+			l.esc = escapePoints(l.in, map[ssa.Value]bool{})
+			l.done = true
+		}
+		escaped := false
+		for _, x := range l.esc {
+			if x == in || mayPrecede(x, in) {
+				escaped = true
+				break
+			}
+		}
+		if escaped {
+			continue
+		}
+		for _, n := range l.names {
+			h0, ok0 := pre.heaps[n]
+			h1, ok1 := st.heaps[n]
+			if !ok0 || !ok1 || h0 == h1 {
+				continue
+			}
+			e.assume(fmt.Sprintf("(= (select %s %s) (select %s %s))", h1.Term, l.ref, h0.Term, l.ref))
+		}
+	}
 }
 
 func (e *Enc) indexAddr(f *frame, st *State, in *ssa.IndexAddr) {
